@@ -506,6 +506,8 @@ def generate(seed, tier, index, kf):
     }
     if r.random() < 0.3:
         prog["buggify"]["gc_every"] = r.choice((20, 200))
+    if r.random() < 0.12:
+        prog["knobs"]["sock_buf"] = r.choice((128, 512, 2048))  # slow reader: the server's drain() waits between responses
     if r.random() < 0.3:
         prog["buggify"]["stall_p"] = 0.003
         prog["buggify"]["stall_max"] = r.choice((0.02, 0.3))
